@@ -36,7 +36,8 @@ Definition run (c : sexp) : sexp :=
                                          | _, _ => false
                                          end in
                         SL [SN 1; s_bool (http_via_proxy || same_pool);
-                            s_bool (str_eqb (w_line w) (w_line w2) && str_eqb (w_host w) (w_host w2))]
+                            s_bool (str_eqb (w_line w) (w_line w2) && str_eqb (w_host w) (w_host w2));
+                            s_str (if http_via_proxy || same_pool then [] else w_dns w2)]
                     end
                 end in
               SL [SN 1; s_str (w_dns w); SN (w_port w); s_opt s_str (w_sni w); s_str (w_line w);
